@@ -135,6 +135,7 @@ func Obj(family, serial *Term) *Term { return mk("obj", "", 0, SRef, family, ser
 func ObjLit(family int64) *Term     { return Obj(IntLit(family), IntLit(0)) }
 func Sub(p *Term, fid int64) *Term  { return mk("sub", "", fid, SRef, p) }
 func Elem(b, i *Term) *Term         { return mk("elem", "", 0, SRef, b, i) }
+func MKey(m, k *Term) *Term         { return mk("mkey", "", 0, SRef, m, k) }
 
 func isLit(t *Term) bool { return t.Op == "int" || t.Op == "bool" || t.Op == "strlit" || t.Op == "nilref" }
 
@@ -301,7 +302,7 @@ func refCmp(a, b *Term) int {
 		return litCmp(a, b)
 	}
 	ca, cb := a.Op, b.Op
-	isC := func(op string) bool { return op == "obj" || op == "sub" || op == "elem" || op == "nilref" }
+	isC := func(op string) bool { return op == "obj" || op == "sub" || op == "elem" || op == "nilref" || op == "mkey" }
 	if isC(ca) && isC(cb) {
 		if ca != cb {
 			return 0
@@ -324,7 +325,7 @@ func refCmp(a, b *Term) int {
 				return 0
 			}
 			return refCmp(a.Args[0], b.Args[0])
-		case "elem":
+		case "elem", "mkey":
 			p := refCmp(a.Args[0], b.Args[0])
 			i := litCmp(a.Args[1], b.Args[1])
 			if p == 0 || i == 0 {
@@ -360,7 +361,7 @@ func rootRange(t *Term) (int64, int64) {
 			return t.Args[0].Int, t.Args[0].Int
 		}
 		return noBound, noBound
-	case "sub", "elem":
+	case "sub", "elem", "mkey":
 		return rootRange(t.Args[0])
 	case "ite":
 		l1, h1 := rootRange(t.Args[1])
@@ -725,6 +726,8 @@ func rebuild(t *Term, a []*Term) *Term {
 		return Sub(a[0], t.Int)
 	case "elem":
 		return Elem(a[0], a[1])
+	case "mkey":
+		return MKey(a[0], a[1])
 	case "havocabove":
 		return HavocAbove(a[0], t.Int, a[1])
 	case "app":
@@ -793,7 +796,7 @@ func RootID(t *Term) *Term {
 		return IntLit(0)
 	case "obj":
 		return t.Args[0]
-	case "sub", "elem":
+	case "sub", "elem", "mkey":
 		return RootID(t.Args[0])
 	case "ite":
 		return Ite(t.Args[0], RootID(t.Args[1]), RootID(t.Args[2]))
@@ -899,6 +902,8 @@ func (p *printer) expr(t *Term) string {
 		s = fmt.Sprintf("(sub %s %d)", p.expr(t.Args[0]), t.Int)
 	case "elem":
 		s = "(elem" + p.args(t.Args) + ")"
+	case "mkey":
+		s = "(mkey" + p.args(t.Args) + ")"
 	case "forall", "exists":
 		var vs []string
 		for _, v := range t.Bvars {
@@ -936,7 +941,7 @@ func (p *printer) args(as []*Term) string {
 }
 
 const smtPrelude = `(declare-sort Str 0)
-(declare-datatypes ((Ref 0)) (((nilref) (obj (family Int) (serial Int)) (sub (parent Ref) (fld Int)) (elem (base Ref) (idx Int)))))
+(declare-datatypes ((Ref 0)) (((nilref) (obj (family Int) (serial Int)) (sub (parent Ref) (fld Int)) (elem (base Ref) (idx Int)) (mkey (mapof Ref) (mapkey Str)))))
 `
 
 // Query renders: assumptions /\ not goal
@@ -984,7 +989,7 @@ func smtQuery(assumptions []*Term, goal *Term, wantModel bool, modelTerms map[st
 		sb.WriteString("(declare-fun strcat (Str Str) Str)\n(assert (forall ((a!q Str) (b!q Str)) (! (= (strlen (strcat a!q b!q)) (+ (strlen a!q) (strlen b!q))) :pattern ((strcat a!q b!q)))))\n(assert (forall ((a!q Str)) (! (= (strcat " + p.emptySym() + " a!q) a!q) :pattern ((strcat " + p.emptySym() + " a!q)))))\n(assert (forall ((a!q Str)) (! (= (strcat a!q " + p.emptySym() + ") a!q) :pattern ((strcat a!q " + p.emptySym() + ")))))\n(assert (forall ((a!q Str) (b!q Str) (c!q Str)) (! (= (strcat (strcat a!q b!q) c!q) (strcat a!q (strcat b!q c!q))) :pattern ((strcat (strcat a!q b!q) c!q)))))\n")
 	}
 	if p.usesRootID {
-		sb.WriteString("(declare-fun rootid (Ref) Int)\n(assert (= (rootid nilref) 0))\n(assert (forall ((f!q Int) (s!q Int)) (! (= (rootid (obj f!q s!q)) f!q) :pattern ((obj f!q s!q)))))\n(assert (forall ((p!q Ref) (f!q Int)) (! (= (rootid (sub p!q f!q)) (rootid p!q)) :pattern ((sub p!q f!q)))))\n(assert (forall ((p!q Ref) (i!q Int)) (! (= (rootid (elem p!q i!q)) (rootid p!q)) :pattern ((elem p!q i!q)))))\n")
+		sb.WriteString("(declare-fun rootid (Ref) Int)\n(assert (= (rootid nilref) 0))\n(assert (forall ((f!q Int) (s!q Int)) (! (= (rootid (obj f!q s!q)) f!q) :pattern ((obj f!q s!q)))))\n(assert (forall ((p!q Ref) (f!q Int)) (! (= (rootid (sub p!q f!q)) (rootid p!q)) :pattern ((sub p!q f!q)))))\n(assert (forall ((p!q Ref) (i!q Int)) (! (= (rootid (elem p!q i!q)) (rootid p!q)) :pattern ((elem p!q i!q)))))\n(assert (forall ((p!q Ref) (k!q Str)) (! (= (rootid (mkey p!q k!q)) (rootid p!q)) :pattern ((mkey p!q k!q)))))\n")
 	}
 	if len(lits) > 1 {
 		sb.WriteString("(assert (distinct " + strings.Join(lits, " ") + "))\n")
